@@ -343,11 +343,13 @@ pub fn gen_ijson(rng: &mut Rng, depth: usize, max_depth: usize) -> Value {
         let n = rng.below(4);
         Value::Array((0..n).map(|_| gen_ijson(rng, depth + 1, max_depth)).collect())
     } else {
-        let n = rng.below(6);
+        // wide objects now and then (the member sort switches strategy with the size)
+        let wide = rng.chance(1, 25);
+        let n = if wide { rng.range(17, 90) } else { rng.below(6) };
         let mut o = Object::new();
-        for _ in 0..n {
-            let k = gen_key(rng);
-            if !o.contains_key(k.as_str()) { o.push(k.as_str().into(), gen_ijson(rng, depth + 1, max_depth)); }
+        for i in 0..n {
+            let k = if wide && !rng.chance(1, 5) { format!("{}{}", gen_key(rng), (i * 13) % 97) } else { gen_key(rng) };
+            if !o.contains_key(k.as_str()) { o.push(k.as_str().into(), gen_ijson(rng, if wide { max_depth } else { depth + 1 }, max_depth)); }
         }
         Value::Object(o)
     }
